@@ -134,7 +134,7 @@ mod serialization {
 
         fn read(de: &mut Deserializer) -> Result<Self, Self::Error> {
             let encapsulation = de.read::<XEnc>()?;
-            let ciphertext = de.read_vec()?;
+            let ciphertext = crate::abe_policy::read_bytes(de)?;
             let encrypted_metadata = if ciphertext.is_empty() {
                 None
             } else {
@@ -177,7 +177,7 @@ mod serialization {
         fn read(de: &mut Deserializer) -> Result<Self, Self::Error> {
             let seed =
                 Secret::from_unprotected_bytes(&mut de.read_array::<SHARED_SECRET_LENGTH>()?);
-            let metadata = de.read_vec()?;
+            let metadata = crate::abe_policy::read_bytes(de)?;
             let metadata = if metadata.is_empty() {
                 None
             } else {
